@@ -68,7 +68,7 @@ theorem backendStep_cases (ops : List MicroOp) (faulty : Oracle) (hh : Harmless 
   constructor
   · intro hok
     unfold backendStep at hok ⊢
-    have := runOps_ok_core faulty ops ⟨b.core.step, [], none, false⟩ b ⟨canonCore ops k, 0, []⟩ hc hok
+    have := runOps_ok_core faulty ops ⟨b.core.step, [], none, false, false⟩ b ⟨canonCore ops k, 0, []⟩ hc hok
     rw [this]
     simp only [canonCore, backendStep]
     rw [hc]
